@@ -403,8 +403,12 @@ pub(crate) fn unicode_range_inner(input: Span) -> PResult<String> {
 
 pub fn bracket_list(input: Span) -> PResult<Value> {
     let (input, content) =
-        delimited(char('['), opt(value_expression), char(']'))
-            .parse(input)?;
+        delimited(
+            (char('['), opt_spacelike),
+            opt(value_expression),
+            char(']'),
+        )
+        .parse(input)?;
     Ok((
         input,
         match content {
